@@ -113,6 +113,12 @@ CHECKS = {
         text="Every weight vector of length <= 5 (6, and 8 on 5 letters, thorough) over {1,0,fraction,integer,negative,tiny,huge} and every open offset interval between breakpoints computed in exact rationals (plus the rounding-free exact ties) is run through all five comb implementations on index-tagged walkers: copies of existing walkers only, equal survivor weights, conserved |weight|, floor/ceil counts, zero weight never selected, exact mean N|w_i|/W, up/down copied together, agreement with a boring serial comb. The multi-rank comb is executed on R = 2..4 real rank bodies as threads under a controlled scheduler: every schedule (unpruned for R <= 3, visited-state pruned for R = 4; eager and rendezvous send semantics) must terminate without deadlock or collective mismatch with exactly one outcome, the serial comb of the rank-ordered population with rank 0's offset. Propagator wrappers: offset = uniform(split(key)[1]), key advanced once; not_a_comm == one-rank world.",
         note="offsets within 2^-30 of a breakpoint are not probed except at rounding-free ties; <= 8 walkers, <= 4 ranks; thorough also runs driver.afqmc on 2 rank threads under all schedules with <= 1 preemption.",
         design="2/C07"),
+    "C16": dict(
+        engine="gridmc",
+        technique="exhaustive enumeration of a finite catalogue (molecules x geometry ladder x basis x mean field x frozen core x Cholesky threshold / density fitting x basis_coeff x user integrals incl. Hubbard lattices x set-up options) through the real prep_afqmc -> files -> _prep_afqmc round trip, pyscf as independent solver",
+        text="Each cell runs the real preparation step in its own directory, reads everything back through the real set-up routine and compares: trial variational energy (init_prop_data e_estimate) with the pyscf SCF energy, the lowest eigenvalue of the WRITTEN (h0,h1,chol) with pyscf FCI / frozen-core CASCI, the cisd/ucisd mixed energy at the reference determinant with the CC energy functional at the handed-over amplitudes, header and electron counts with mol.nelec. Tolerances are rigorous bounds derived from the pivoted-Cholesky residual, not fits. Quick = greedy covering array over every letter and 22 axis pairs (58 cells + CC sentinels), thorough = full product of 2118 cells.",
+        note="only what the property admits (no UHF/UCCSD with frozen core, no frozen core with user integrals, CC on the default basis); CC on a non-aufbau reference and diverged CCSD cells are counted, not judged; quick tier is a covering array (exhaustive=false), thorough the full product.",
+        design="2/C16"),
 }
 
 NOT_YET = {}
